@@ -248,6 +248,52 @@ func (s *Server) SyncRaw(req []byte) ([]byte, error) {
 	return io.ReadAll(conn)
 }
 
+// SyncRawSplit sends the request in two TCP segments (req[:cut], a pause,
+// req[cut:]) and returns everything the server answers.
+func (s *Server) SyncRawSplit(req []byte, cut int) ([]byte, error) {
+	conn, err := net.DialTimeout("tcp", fmt.Sprintf("127.0.0.1:%d", s.TCP), 60*time.Second)
+	if err != nil {
+		return nil, err
+	}
+	defer conn.Close()
+	conn.SetDeadline(time.Now().Add(120 * time.Second))
+	if _, err := conn.Write(req[:cut]); err != nil {
+		return nil, err
+	}
+	time.Sleep(40 * time.Millisecond) // lets the first segment be read on its own
+	if _, err := conn.Write(req[cut:]); err != nil {
+		return nil, err
+	}
+	return io.ReadAll(conn)
+}
+
+// SyncDeviceSplit is SyncDevice with the four request bytes sent in two pieces.
+func (s *Server) SyncDeviceSplit(id uint32, cut int) (reply []byte, refused bool, err error) {
+	var req [4]byte
+	binary.LittleEndian.PutUint32(req[:], id)
+	// The server drops a connection whose request is not complete within its
+	// read deadline (2.5 s in the test build). The pause between the two pieces
+	// is wall-clock time, so a stall of the whole machine can land there: an
+	// empty answer is retried before it is reported.
+	var raw []byte
+	for attempt := 0; attempt < 4; attempt++ {
+		raw, err = s.SyncRawSplit(req[:], cut)
+		if err == nil && len(raw) > 0 {
+			break
+		}
+	}
+	if err != nil {
+		return nil, false, err
+	}
+	if len(raw) == 1 && raw[0] == 0 {
+		return nil, true, nil
+	}
+	if len(raw) < 2 || int(binary.LittleEndian.Uint16(raw)) != len(raw)-2 {
+		return nil, false, fmt.Errorf("sync reply of %d bytes with a wrong length prefix", len(raw))
+	}
+	return raw[2:], false, nil
+}
+
 // SyncDevice requests the sync reply for a device id and strips the length
 // prefix. refused is true when the server answered with the single zero byte.
 func (s *Server) SyncDevice(id uint32) (reply []byte, refused bool, err error) {
